@@ -8,7 +8,11 @@ ID = "C14"
 LEAN_MODULES = ["Properties.C14"]
 THEOREMS = ["EngineModel.Properties.C14." + t for t in [
     "C14_shape_sound", "C14_no_fault_succeeds", "C14_all_writes", "C14_shape_complete", "C14_shape_exact",
-    "C14_raise_autocommit", "C14_usable", "C14_next_call", "C14_fault_on_begin", "C14_fault_on_commit"]]
+    "C14_raise_autocommit", "C14_usable", "C14_next_call", "C14_fault_on_begin", "C14_fault_on_commit",
+    "C14_fault_is_reported", "C14_all_or_nothing", "C14_skeleton_decides",
+    "C14_crates_v1_program", "C14_crates_v1_shape", "C14_crates_v1_skeleton", "C14_crates_v1_all_or_nothing",
+    "C14_crates_v1_self_throw",
+    "C14_crates_v2_program", "C14_crates_v2_shape", "C14_crates_v2_skeleton", "C14_crates_v2_all_or_nothing"]]
 ASSUMPTIONS = [
     "SqliteSemantics (modelled, Spec/Txn.lean): a statement applies completely or not at all; BEGIN fails inside a "
     "transaction, COMMIT fails outside one; ROLLBACK restores the committed database; an error may or may not roll "
@@ -288,6 +292,29 @@ def tie(ctx):
                           for k in range(lean[s]["n"]))
             if allgood != lean[s]["atomic"]:
                 divergences.append({"input": s, "impl": "txn.exec sweep says %s" % allgood, "model": "txn.shape says %s" % lean[s]["atomic"]})
+    # ---- the concrete statement programs (Lean: Api/CratesV1Stmts, Db/V2CratesStmts, ...): the skeleton of every
+    # observed call (reads dropped, the writes of one scope counted once — C14_skeleton_decides) must be one the
+    # model's operation can have (C14_crates_v1_skeleton, C14_crates_v2_skeleton, ...)
+    sk_lines = ["c14.skel " + s for s in shape_set]
+    sk_out = runner.run_model_script(sk_lines) if sk_lines else []
+    skel = {s: (o[3:] if o.startswith("ok ") else None) for s, o in zip(shape_set, sk_out)}
+    op_keys = sorted({(G.family(c["schema"]), re.sub(r"\(.*\)$", "", c["op"])) for c in cases})
+    al_out = runner.run_model_script(["c14.allowed %s %s" % k for k in op_keys]) if op_keys else []
+    allowed = {k: (o[3:].split("|") if o.startswith("ok ") and o != "ok unmodelled" else None) for k, o in zip(op_keys, al_out)}
+    skel_hist, unmodelled = {}, set()
+    for c in cases:
+        if c["status"] != "ok":
+            continue
+        key = (G.family(c["schema"]), re.sub(r"\(.*\)$", "", c["op"]))
+        sk = skel.get(c["trace"])
+        skel_hist.setdefault("%s %s" % key, {})
+        skel_hist["%s %s" % key][sk] = skel_hist["%s %s" % key].get(sk, 0) + 1
+        if allowed.get(key) is None:
+            unmodelled.add("%s %s" % key)
+        elif sk not in allowed[key]:
+            divergences.append({"input": "%s | %s | %s" % (c["schema"], c["op"], c["line"][:60]),
+                                "impl": "observed statements %s, skeleton %s" % (c["trace"][:80], sk),
+                                "model": "the model's statement program has skeleton %s" % " or ".join(allowed[key])})
     # ---- fault-free run checks
     for c in cases:
         if c["status"] == "rejected":
@@ -403,6 +430,9 @@ def tie(ctx):
             "fault_verdicts": verdict_hist, "lean_vs_observed": agree,
             "observed_shapes(non-read kinds)": shape_hist,
             "lean_shapes": {s: ("atomic" if lean[s]["atomic"] else "nonatomic") for s in shape_set},
+            "skeletons(op -> observed skeleton: calls)": skel_hist,
+            "model_skeletons(op -> allowed by the concrete statement program)": {"%s %s" % k: v for k, v in allowed.items() if v},
+            "operations_without_concrete_program": sorted(unmodelled),
         },
         "divergences": divergences[:20],
         "violations": vout,
